@@ -20,6 +20,8 @@ DOCS = {
     "plain": "{\n  k = 0;\n}\n",
     "attrpath-family": "{\n  x.q = 0;\n  k = 0;\n}\n",
     "let-layer": "let\n  v = 1;\nin\n{\n  k = 0;\n}\n",
+    # an attrpath family whose root is itself a quoted name with a dot in it
+    "quoted-family": "{\n  \"a.b\".q = 0;\n  k = 0;\n}\n",
 }
 
 
@@ -73,6 +75,10 @@ def eval_case(item):
         npath, names_ = seg, [name]
     elif shape == "under-x":
         npath, names_ = "x." + seg, ["x", name]
+    elif shape == "under-quoted-root":
+        npath, names_ = '"a.b".' + seg, ["a.b", name]
+    elif shape == "quoted-pair":
+        npath, names_ = seg + '."c.d"', [name, "c.d"]
     else:
         npath, names_ = seg + ".y", [name, "y"]
     if doc == "let-layer" and shape == "single":
@@ -130,7 +136,8 @@ def eval_case(item):
 def run(tier, seed):
     t0 = time.time()
     nm = list(names(tier))
-    items = [(d, n, s) for n in nm for d, s in (("plain", "single"), ("attrpath-family", "under-x"), ("plain", "parent"), ("let-layer", "single"))]
+    items = [(d, n, s) for n in nm for d, s in (("plain", "single"), ("attrpath-family", "under-x"), ("plain", "parent"), ("let-layer", "single"),
+                                                          ("plain", "quoted-pair"), ("quoted-family", "under-quoted-root"))]
     with mp.get_context("fork").Pool(16) as pool:
         res = pool.map(eval_case, items, chunksize=256)
     vio = {}
@@ -146,7 +153,7 @@ def run(tier, seed):
     return dict(evaluations=len(items), distinct_nontrivial=len(items),
                 rule=(f"every string over {len(ALPHABET)} critical characters up to length {4 if tier == 'quick' else 5} (length >= 4: containing one of "
                       "$ { } \\ \" .) plus keywords / unicode / control characters as attribute name, as a single segment, under an attrpath family "
-                      "and as the parent of a deeper path, in a set and in a let layer: set, set again, rm; names decoded from the output CST by the "
+                      "(plain and with a quoted, dotted root), as the parent of a deeper path (plain and quoted), in a set and in a let layer: set, set again, rm; names decoded from the output CST by the "
                       "independent Nix string decoder"),
                 samples=[dict(name=items[i][1], doc=items[i][0], shape=items[i][2]) for i in (0, len(items) // 2, -1)],
                 exhaustive=True, violations=list(vio.values()), seconds=time.time() - t0)
